@@ -40,13 +40,13 @@ def route_line(p: int, med: int, nh: int) -> str:
     return f'route {prefix} next-hop {NHS[fam][nh]} med {med}'
 
 
-def render(neighbors: list[dict], ribout: bool = True) -> str:
+def render(neighbors: list[dict], ribout: bool = True, process: bool = True) -> str:
     """ribout False = a neighbor that keeps no Adj-RIB-Out (it needs route-refresh off, otherwise the configuration turns it back on)"""
-    text = nh.process_section()
+    text = nh.process_section() if process else ''
     rib = 'adj-rib-out true;\n  capability {\n    asn4 enable;\n    route-refresh enable;\n  }' if ribout else 'adj-rib-out false;\n  capability {\n    asn4 enable;\n    route-refresh disable;\n  }'
     for nb in neighbors:
         peer = PEERS[nb['peer']]
-        body = nh.api_section(changes=True) + '\n  static {\n' + '\n'.join(f'    {route_line(*r)};' for r in nb['routes']) + '\n  }'
+        body = (nh.api_section(changes=True) if process else '') + '\n  static {\n' + '\n'.join(f'    {route_line(*r)};' for r in nb['routes']) + '\n  }'
         text += (
             f'neighbor {peer["ip"]} {{\n  router-id 10.0.0.5;\n  local-address 127.0.0.1;\n  local-as 65000;\n  peer-as {peer["as"]};\n  hold-time {nb["hold"]};\n'
             f'  {rib}\n  family {{\n    ipv4 unicast;\n' + ('' if nb.get('v4only') else '    ipv6 unicast;\n') + f'  }}\n{body}\n}}\n'
@@ -119,14 +119,19 @@ def cases(draw):
         for nb in old + new:
             nb.pop('v4only', None)
     session_up = draw(st.sampled_from([True, True, False])) if ribout else True
+    no_process = draw(st.integers(0, 4)) == 0
+    if no_process:
+        # the running configuration defines no API process at all; the file offered at reload does
+        api = []
     return {
+        'no_process': no_process,
         'old': old,
         'new': new,
         'break': draw(st.sampled_from([None, None, None] + BREAKS)),
         'break_at': draw(st.integers(0, 10000)),
         'session_up': session_up,
         'api': api,
-        'via': draw(st.sampled_from(['signal', 'signal', 'api'])),
+        'via': 'signal' if no_process else draw(st.sampled_from(['signal', 'signal', 'api'])),
         'then_valid_reload': draw(st.booleans()),
         'ribout': ribout,
     }
@@ -171,7 +176,7 @@ def check(case: dict) -> dict:
     os.makedirs(tmp, exist_ok=True)
     path = os.path.join(tmp, 'exabgp.conf')
     ribout = case.get('ribout', True)
-    old_text = render(case['old'], ribout)
+    old_text = render(case['old'], ribout, process=not case.get('no_process'))
     new_text = render(case['new'], ribout)
     with open(path, 'w') as fh:
         fh.write(old_text)
@@ -238,6 +243,7 @@ def check(case: dict) -> dict:
             before_neighbors = {k: sorted(str(r) for r in n.routes) for k, n in hn.reactor.configuration.neighbors.items()}
             before_msgs = {ip: len(r.messages) for ip, r in sessions.items()}
             before_fsm = {k: p.fsm.name() for k, p in hn.reactor._peers.items()}
+            before_processes = (sorted(hn.reactor.configuration.processes), len(nh.FakePopen.instances))
             # the new file
             kind = case['break']
             if kind == 'missing':
@@ -294,14 +300,21 @@ def check(case: dict) -> dict:
                 out['neighbors_diff'] = (sorted(before_neighbors), sorted(after_neighbors))
                 out['fsm_same'] = {k: p.fsm.name() for k, p in hn.reactor._peers.items()} == before_fsm
                 out['fsm'] = (before_fsm, {k: p.fsm.name() for k, p in hn.reactor._peers.items()})
+                out['processes'] = (before_processes, (sorted(hn.reactor.configuration.processes), len(nh.FakePopen.instances)))
                 out['extra_bytes'] = {ip: [(ty, b.hex()[:60]) for _, ty, b in r.messages[before_msgs[ip] :] if ty != 4] for ip, r in sessions.items()}
                 # the API keeps working
-                n_lines = len(hn.api_lines)
-                hn.api_write(b'peer * announce route 81.0.0.0/24 next-hop 1.2.3.4 med 7\n')
-                await hn.sleep(1.5)
-                hn.api_read()
-                out['api_reply'] = [ln for _, ln in hn.api_lines[n_lines:]]
-                out['api_sent'] = {ip: '81.0.0.0/24' in peer_table(r) for ip, r in sessions.items() if r.closed_at is None}
+                if case.get('no_process'):
+                    await hn.sleep(1.5)
+                    out['processes'] = (before_processes, (sorted(hn.reactor.configuration.processes), len(nh.FakePopen.instances)))
+                    out['api_reply'] = ['done']
+                    out['api_sent'] = {}
+                else:
+                    n_lines = len(hn.api_lines)
+                    hn.api_write(b'peer * announce route 81.0.0.0/24 next-hop 1.2.3.4 med 7\n')
+                    await hn.sleep(1.5)
+                    hn.api_read()
+                    out['api_reply'] = [ln for _, ln in hn.api_lines[n_lines:]]
+                    out['api_sent'] = {ip: '81.0.0.0/24' in peer_table(r) for ip, r in sessions.items() if r.closed_at is None}
                 if case['then_valid_reload']:
                     if kind == 'directory':
                         os.rmdir(path)
@@ -325,7 +338,7 @@ def check(case: dict) -> dict:
 
     kind = case['break']
     fam_change = any(bool(o.get('v4only')) != bool(n.get('v4only')) for o in case['old'] for n in case['new'] if o['peer'] == n['peer'])
-    classes = [f'new:{kind or "valid"}', f'session-up:{case["session_up"]}', f'family-set-changed:{fam_change}', f'via:{case["via"]}', f'adj-rib-out:{case.get("ribout", True)}']
+    classes = [f'no-process-configured:{bool(case.get("no_process"))}', f'new:{kind or "valid"}', f'session-up:{case["session_up"]}', f'family-set-changed:{fam_change}', f'via:{case["via"]}', f'adj-rib-out:{case.get("ribout", True)}']
     if out['reload_ok']:
         if kind in ('missing', 'directory'):
             raise Violation(f'reload:accepted-{kind}-file', 'reload reported success')
@@ -374,6 +387,8 @@ def check(case: dict) -> dict:
         raise Violation('reload:valid-configuration-refused', 'the new file is well-formed')
     if not out['neighbors_same']:
         raise Violation(f'reload-failed:neighbors-changed:{kind}', f'before {out["neighbors_diff"][0]} after {out["neighbors_diff"][1]}')
+    if out['processes'][0] != out['processes'][1]:
+        raise Violation(f'reload-failed:api-processes-changed:{kind}', f'configured / spawned before {out["processes"][0]} after {out["processes"][1]}')
     if not out['fsm_same']:
         raise Violation(f'reload-failed:session-state-changed:{kind}', str(out['fsm']))
     for ip, extra in out['extra_bytes'].items():
